@@ -50,7 +50,9 @@ ASSUMPTIONS = [
   "FontFamily (whose validation looks into the value) and add_animation_step are bounded-only",
   "frame rule (syntactic, checked on the AST each run): a method that assigns no field and mutates only through methods under "
   "contract preserves WF (push_children, remove_children, remove, copy_to and the Ruby/Rtc wrappers, as far as W1-W3/W5 go)",
-  "ruby / ruby-text-container sequence patterns (W4 beyond the parent-kind/child-kind table) are bounded-only",
+  "Ruby.push_children is proved for children that are individually pushable (detached distinct roots of the same document): only "
+  "the four patterns are accepted, pushed in order; partial application when a later child is not pushable, Rtc patterns and "
+  "sequence patterns as part of WF are bounded-only",
 ]
 
 
@@ -288,6 +290,76 @@ def h_iter(cls):
   return Harness("__iter__[ContentElement]", run, [M + "ContentElement.__iter__"], None, {},
                  "iteration yields, as its i-th item, the child with ghost index i, for i = 0 .. count-1, and then stops: with index range "
                  "and injectivity (W1) the items are exactly the elements whose parent is the receiver, in link order (discharges A-ITER)")
+
+
+def h_iter_membership():
+  """lemma over the contracts: from the proved contract of __iter__ (its i-th item is the child with index i, i < count) and W1,
+  the items of list(element) are exactly the elements whose parent is the element -- the reading used for `x in list(self)`"""
+  def run(ctx):
+    s = Setup(ctx, ELEMENT_CLASSES)
+    S = z3.Select
+    me, g0, h0 = s.self_.term, s.g0, s.h0
+    item = z3.Function("iter_item", z3.IntSort(), Ref)       # the sequence yielded by iter(self)
+    i = z3.Int("i")
+    x = z3.Const("x", Ref)
+    ctx.hyps.append(z3.ForAll([i], z3.Implies(z3.And(i >= 0, i < S(g0.cnt, me)),
+                                              z3.And(item(i) != NULL, S(h0.arrays["_parent"], item(i)) == me, S(g0.idx, item(i)) == i)),
+                              patterns=[item(i)]))
+    ctx.inputs["x"] = x
+    assume(SymBool(x != NULL))
+    yielded = z3.Exists([i], z3.And(i >= 0, i < S(g0.cnt, me), item(i) == x))
+    prove(SymBool(z3.Implies(S(h0.arrays["_parent"], x) == me, z3.And(S(g0.idx, x) >= 0, S(g0.idx, x) < S(g0.cnt, me), item(S(g0.idx, x)) == x))),
+          "lemma/every-child-is-yielded(at-its-index)", kind="lemma")
+    prove(SymBool(z3.Implies(yielded, S(h0.arrays["_parent"], x) == me)), "lemma/every-item-is-a-child", kind="lemma")
+  return Harness("lemma.iter-membership", run, [], None, {},
+                 "x in list(element)  <=>  parent(x) is element  (from the __iter__ contract and W1 index range / injectivity)")
+
+
+def h_ruby_push_children(pattern):
+  """Ruby.push_children with a list of individually pushable children of the given kinds"""
+  names = [c.__name__ for c in pattern]
+  valid = names in (["Rb", "Rt"], ["Rb", "Rp", "Rt", "Rp"], ["Rbc", "Rtc"], ["Rbc", "Rtc", "Rtc"])
+
+  def run(ctx):
+    s = Setup(ctx, model.Ruby, with_root=True)
+    ctx.heapctx.stubs[model.ContentElement.root] = root_stub(s)
+    S = z3.Select
+    me, g0, h0 = s.self_.term, s.g0, s.h0
+    kids = [s.ref(f"c{j}", cls) for j, cls in enumerate(pattern)]
+    # requires: the children are distinct, detached roots of the same document, and the ruby is not below any of them
+    for j, k in enumerate(kids):
+      assume(SymBool(z3.And(k.term != NULL, k.term != me, S(h0.arrays["_parent"], k.term) == NULL,
+                            S(h0.arrays["_doc"], k.term) == S(h0.arrays["_doc"], me), s.root(me) != k.term)))
+      for k2 in kids[:j]:
+        assume(SymBool(k.term != k2.term))
+    st, r = core.call_real(s.self_.push_children, list(kids), allowed=EXC)
+    if st == "raise":
+      s.unchanged()
+      if valid:
+        prove(SymBool(S(h0.arrays["_first_child"], me) != NULL), "a-valid-pattern-is-only-rejected-when-the-ruby-has-children")
+      return
+    prove(valid, "only-a-valid-ruby-pattern-is-accepted")
+    rank1, ax = define_array("rank1", lambda a: z3.If(z3.Or(*[s.root(a) == k.term for k in kids]),
+                                                       S(g0.rank, a) + S(g0.rank, me) + 1 - S(g0.rank, s.root(a)), S(g0.rank, a)))
+    idx1, cnt1 = g0.idx, g0.cnt
+    for j, k in enumerate(kids):
+      idx1 = z3.Store(idx1, k.term, z3.IntVal(j))
+    cnt1 = z3.Store(cnt1, me, z3.IntVal(len(kids)))
+    s.post_wf(Ghost(idx1, cnt1, rank1), [ax])
+    h1 = s.heap
+    for j, k in enumerate(kids):
+      prove(SymBool(z3.And(S(h1.arrays["_parent"], k.term) == me,
+                           S(h1.arrays["_next_sibling"], k.term) == (kids[j + 1].term if j + 1 < len(kids) else NULL))),
+            f"post/child{j}-in-place")
+    prove(SymBool(z3.And(S(h1.arrays["_first_child"], me) == kids[0].term, S(h1.arrays["_last_child"], me) == kids[-1].term)), "post/first-last")
+  return Harness(f"Ruby.push_children[{','.join(names)}]", run, [M + "Ruby.push_children", M + "ContentElement.push_child"],
+                 "replayers.c15:heap_cex", {"op": "push_children", "cls": "Ruby", "kinds": KIND_NAMES},
+                 "ruby children are accepted only in the four TTML patterns, pushed in order, WF preserved; a rejected call changes nothing")
+
+
+RUBY_PATTERNS = [[model.Rb, model.Rt], [model.Rb, model.Rp, model.Rt, model.Rp], [model.Rbc, model.Rtc], [model.Rbc, model.Rtc, model.Rtc],
+                 [model.Rt, model.Rb], [model.Rb], [model.Rb, model.Rt, model.Rp], [model.Rbc, model.Rt], [model.Span, model.Rt],
+                 [model.Rb, model.Rp, model.Rt]]
 
 
 def h_push_child(cls):
@@ -588,6 +660,9 @@ def all_harnesses(tier):
   hs.append(h_root(ELEMENT_CLASSES))
   hs.append(h_len(ELEMENT_CLASSES))
   hs.append(h_iter(ELEMENT_CLASSES))
+  hs.append(h_iter_membership())
+  for pat in RUBY_PATTERNS:
+    hs.append(h_ruby_push_children(pat))
   for label, cs in implementations("remove_child"):
     hs.append(h_remove_child(cs if len(cs) > 1 else cs[0], label))
   for label, cs in implementations("remove"):
